@@ -12,10 +12,7 @@ package dynblock
 // mark-wrapping the raw attributes of expanded body b (what prepareAttributes returns).
 // verif:specfunc prepared(b ref, raw ref) ref
 
-// verif:func (*expandBody).extendSchema
-//@ trusted
-//@ assigns nothing
-//@ ensures ret != nil
+// (extendSchema: verified below, unit U13d)
 
 // verif:func (*expandBody).expandBlocks
 //@ trusted
@@ -143,3 +140,15 @@ package dynblock
 //@ requires got != nil && (forall j int :: { got.Blocks[j] } 0 <= j && j < len(got.Blocks) ==> got.Blocks[j] != nil)
 //@ ensures blocks: ret != nil && len(ret.Blocks) == len(got.Blocks) && (forall j int :: { ret.Blocks[j] } 0 <= j && j < len(ret.Blocks) ==> ret.Blocks[j] != nil && typeis(ret.Blocks[j].Body, unknownBody) && unbox(ret.Blocks[j].Body, unknownBody).valueMarks == b.valueMarks)
 //@ loop 1 invariant ret != nil && fresh(ret) && fresh(ret.Blocks) && len(ret.Blocks) == rangeindex + 1 && rangeindex + 1 <= len(got.Blocks) && (forall j int :: { ret.Blocks[j] } 0 <= j && j < len(ret.Blocks) ==> ret.Blocks[j] != nil && fresh(ret.Blocks[j]) && typeis(ret.Blocks[j].Body, unknownBody) && unbox(ret.Blocks[j].Body, unknownBody).valueMarks == b.valueMarks)
+
+// ---- the extended schema is built in fresh memory (unit U13d, C17) ----
+// verif:unit U13d props=C17
+// extendSchema must not write the caller's schema (which is shared between concurrent content
+// requests): everything it adds goes into slices it allocates itself.
+// verif:func (*expandBody).extendSchema
+//@ nosafety
+//@ requires schema != nil
+//@ assigns nothing
+//@ ensures fresh(ret) && ret != nil
+//@ loop 1 invariant fresh(extSchema) && fresh(extSchema.Blocks)
+//@ loop 2 invariant fresh(extSchema) && fresh(newAttrs)
